@@ -11,6 +11,7 @@ def _(data: "bytes", offset: "int"):
     loop(0, index="k", invariant=[
         len(barray) == 2 * k,
         forall(lambda i: barray[i] == nb_byte(data, offset, i), 0, 2 * k)])
+    domain(data=bytes_(alphabet=b"\x00\x5a\xff", maxlen=3), offset=ints(0, 0x41, 0x61, 240, 241, -1))
 
 
 @contract("dissect.cobaltstrike.utils:netbios_decode", props=["C20", "C04"])
@@ -24,6 +25,7 @@ def _(data: "bytes", offset: "int"):
     loop(0, index="k", invariant=[
         len(barray) == k,
         forall(lambda j: barray[j] == (data[2 * j] - offset) * 16 + (data[2 * j + 1] - offset), 0, k)])
+    domain(data=bytes_(alphabet=b"\x41\x45\x4f\x61\x70", maxlen=4), offset=ints(0x41, 0x61, 0))
 
 
 @lemma(props=["C20", "C04"])
@@ -50,6 +52,7 @@ def _(data: "bytes", key: "bytes"):
     ensures(xor_post(data, key, result))
     returns("bytes")
     ghost(entry=True, do=[seqsum_nonneg(key)])
+    domain(data=bytes_(alphabet=b"\x00\x01\xfe", maxlen=5), key=bytes_(alphabet=b"\x00\x03\x80", maxlen=3))
 
 
 @contract("dissect.cobaltstrike.utils:unpack", props=["C20", "C15", "C02", "C03", "C05", "C09", "C17", "C18"])
@@ -59,6 +62,7 @@ def _(data: "bytes", size: "opt[int]", byteorder: "lit:'little'|'big'", signed: 
     width and byte order are ground obligations (pyvc/ground.py)."""
     ensures(result == int.from_bytes(data if size is None else data[:size], byteorder, signed=signed))
     returns("int")
+    domain(data=bytes_(alphabet=b"\x00\x01\x80\xff", maxlen=4), size=ints(None, 0, 1, 2, 3, 4), byteorder=lit("little", "big"), signed=lit(False, True))
 
 
 @contract("dissect.cobaltstrike.utils:pack", props=["C20", "C04", "C05"])
@@ -68,6 +72,7 @@ def _(n: "int", size: "opt[int]", byteorder: "lit:'little'|'big'", signed: "lit:
     ensures(fits_bytes(n, byte_width(n) if size is None else size, signed=signed))
     ensures(result == int.to_bytes(n, byte_width(n) if size is None else size, byteorder, signed=signed))
     returns("bytes")
+    domain(n=ints(0, 1, 127, 128, 255, 256, 65535, 65536, -1, -128, -129, 2 ** 32 - 1, 2 ** 32), size=ints(None, 0, 1, 2, 4), byteorder=lit("little", "big"), signed=lit(False, True))
 
 
 @lemma(props=["C20"])
@@ -103,3 +108,61 @@ def unpack_pack(b: "bytes"):
     ensures(int.to_bytes(int.from_bytes(b, "big"), len(b), "big") == b)
     ensures(int.to_bytes(int.from_bytes(b, "little", signed=True), len(b), "little", signed=True) == b)
     ensures(int.to_bytes(int.from_bytes(b, "big", signed=True), len(b), "big", signed=True) == b)
+
+
+@lemma(props=["C20"])
+def sum_remove(s: "str", c: "int"):
+    """summing after removing a character equals summing while skipping it"""
+    ensures(seqsum(remove_char(s, c)) == sum_excl(s, c))
+    decreases(len(s))
+    if len(s) > 0:
+        sum_remove(s[:-1], c)
+        seqsum_snoc(remove_char(s[:-1], c), ord(s[-1]))
+
+
+@lemma(props=["C20"])
+def seqsum_snoc(s: "ilist", x: "int"):
+    ensures(seqsum(s + [x]) == seqsum(s) + x)
+
+
+@contract("dissect.cobaltstrike.utils:checksum8", props=["C20"])
+def _(text: "str"):
+    ensures(result == cs8(text))
+    returns("int")
+    ghost(after='text = text.replace("/", "")', do=[sum_remove(old(text), 47)])
+    domain(text=str_(alphabet="/aA0\n", maxlen=6))
+
+
+@contract("dissect.cobaltstrike.utils:is_stager_x86", props=["C20"])
+def _(uri: "str"):
+    ensures(result == (cs8(uri) == 92))
+    returns("bool")
+    domain(uri=str_(alphabet="/aA0\n", maxlen=6))
+
+
+@contract("dissect.cobaltstrike.utils:is_stager_x64", props=["C20"])
+def _(uri: "str"):
+    """x64 stager: checksum8 93 and exactly a slash plus four alphanumerics"""
+    ensures(result == (cs8(uri) == 93 and stager_x64_shape(uri)))
+    returns("bool")
+    domain(uri=str_(alphabet="/aA0\n", maxlen=6))
+
+
+@contract("dissect.cobaltstrike.utils:random_stager_uri", props=["C20"])
+def _(x64: "bool", length: "int"):
+    """partial correctness (termination of the rejection sampler is probabilistic, DESIGN.md C20 OUT)"""
+    raises(ValueError, when=(x64 and length != 4) or length < 3)
+    ensures(not ((x64 and length != 4) or length < 3))
+    ensures(len(result) == length + 1)
+    ensures(implies(x64, cs8(result) == 93 and stager_x64_shape(result)))
+    ensures(implies(not x64, cs8(result) == 92))
+    returns("str")
+    loop(0, invariant=[])
+    domain(x64=bools(), length=ints(-1, 0, 2, 3, 4, 5, 7))
+
+
+@lemma(props=["C20", "C04"])
+def xor_involutive(d: "bytes", k: "bytes", r: "bytes", r2: "bytes"):
+    """XOR with a repeating key is length-preserving and self-inverse"""
+    requires(xor_post(d, k, r), xor_post(r, k, r2))
+    ensures(len(r) == len(d), r2 == d)
